@@ -79,10 +79,12 @@ def merge_lines(paths, dest):
 # ----------------------------------------------------------------------------------------
 # C04
 
-def rewrite_cfg(steps, all_cuts, max_vals, mut=''):
+def rewrite_cfg(steps, all_cuts, max_vals, mut='', values=False):
+    """values: also check VariantReadsBack (the BER value reader of X690ValueReader on every variant) - only in the
+    BFS plans with one or two rewrite steps; under -simulate TLC evaluates invariants on every successor"""
     return ('SPECIFICATION Spec\nCONSTANTS\n  MaxSteps = %d\n  AllCuts = %s\n  MaxNest = 3\n  MaxVals = %d\n'
-            '  Mut = "%s"\nINVARIANT StartIsDer\nINVARIANT CheckAndEmit\nCHECK_DEADLOCK FALSE\n'
-            % (steps, 'TRUE' if all_cuts else 'FALSE', max_vals, mut))
+            '  Mut = "%s"\nINVARIANT StartIsDer\n%sINVARIANT CheckAndEmit\nCHECK_DEADLOCK FALSE\n'
+            % (steps, 'TRUE' if all_cuts else 'FALSE', max_vals, mut, 'INVARIANT VariantReadsBack\n' if values else ''))
 
 
 def record_fixtures(run, max_n, max_len):
@@ -153,7 +155,7 @@ def c04(tier, seed):
             sub = unique_cases(sub)
             spath = run.path('cases_%s.ndjson' % name)
             pl.write_cases(sub, spath)
-            out, res = pl.tlc_generate(run, 'TlvRewrite', rewrite_cfg(steps, cuts, mv), 'var_%s.ndjson' % name,
+            out, res = pl.tlc_generate(run, 'TlvRewrite', rewrite_cfg(steps, cuts, mv, values=(name == 'bfs2')), 'var_%s.ndjson' % name,
                                        workers=TLC_WORKERS, simulate=sim, depth=depth, env={'CASES_FILE': spath},
                                        timeout=6000, what='TlvRewrite %s: %d cases, R=%d (ModelOk on every variant)'
                                        % (name, len(sub), steps))
